@@ -3,9 +3,23 @@
     reachability, permutation, aperiodicity — decided on the observation, without the model). *)
 From Coq Require Import ZArith NArith List Bool.
 From Coq Require Import Floats.SpecFloat.
+From Coq Require Import Numbers.Cyclic.Int63.Uint63.
 From RlibV Require Import Common.Batch C14.Model.
 Import ListNotations.
 Open Scope Z_scope.
+
+(** Large literals in generated batch files: a 64-bit decimal [Z] literal costs ~1.5 ms to
+    elaborate (a 64-constructor term), a primitive-integer literal 0.1 ms.  The printer writes
+    [U n] (n < 2^62), [W hi lo] (= hi * 2^32 + lo) and their negations; they are only ever
+    evaluated ([vm_compute]), no theorem mentions them. *)
+Definition U (n : int) : Z := Uint63.to_Z n.
+Definition Un (n : int) : Z := - Uint63.to_Z n.
+Definition W (hi lo : int) : Z := Uint63.to_Z hi * 4294967296 + Uint63.to_Z lo.
+Definition Wn (hi lo : int) : Z := - (Uint63.to_Z hi * 4294967296 + Uint63.to_Z lo).
+Arguments U n%uint63.
+Arguments Un n%uint63.
+Arguments W (hi lo)%uint63.
+Arguments Wn (hi lo)%uint63.
 
 Inductive case :=
 (** [gen_from_u64] of one range on several raws: (raw, result or panic) *)
